@@ -154,6 +154,87 @@ impl C07 {
     }
 }
 
+impl C07 {
+    /// The SAME two directories were once synchronised in the other order (`bisync B A`), so an
+    /// archive of the mirrored pair exists and is arbitrarily stale; later a file it records was
+    /// deleted on both sides (under `bisync A B`) and re-created on one. When the (A,B) archive is
+    /// then lost or damaged, nothing may be deleted — the mirrored pair's record is not a base.
+    fn mirrored_variant(&self, sc: &Sc, rep: &mut RunReport) {
+        let h = &sc.hist;
+        let Ok(hr) = exec_history(h, sc.cfg_seed, true, 0, |_, _, _, _| Ok(())) else { return };
+        rep.execs += hr.runs.len() as u64;
+        let mut w = hr.final_world;
+        if w.fs(HOST).get_file(&archive_file(ROOT_B, ROOT_A)).is_none() {
+            return;
+        }
+        let a = strip_staging(&tree_bytes(&w, HOST, ROOT_A));
+        let b = strip_staging(&tree_bytes(&w, HOST, ROOT_B));
+        let victims: Vec<(String, Vec<u8>)> = a.iter().filter(|(p, c)| b.get(*p) == Some(*c)).take(2).map(|(p, c)| (p.clone(), c.clone())).collect();
+        if victims.is_empty() {
+            return;
+        }
+        for (p, _) in &victims {
+            w.host(HOST).remove_file(&format!("{ROOT_A}/{p}"));
+            w.host(HOST).remove_file(&format!("{ROOT_B}/{p}"));
+        }
+        let o1 = run_bisync(w, run_cfg(sc.cfg_seed ^ 0x31), ROOT_A, ROOT_B, &[], h.hostname_env);
+        rep.execs += 1;
+        if classify(&o1) != RunKind::Completed {
+            return;
+        }
+        let mut w = o1.world;
+        let t = w.clock_ns + 5_000_000_000;
+        for (i, (p, c)) in victims.iter().enumerate() {
+            let root = if (sc.cfg_seed >> 8).wrapping_add(i as u64) % 2 == 0 { ROOT_A } else { ROOT_B };
+            w.host(HOST).put_file(&format!("{root}/{p}"), c, t);
+        }
+        let afile = archive_file(ROOT_A, ROOT_B);
+        let Some(orig) = w.fs(HOST).get_file(&afile) else { return };
+        let a0 = strip_staging(&tree_bytes(&w, HOST, ROOT_A));
+        let b0 = strip_staging(&tree_bytes(&w, HOST, ROOT_B));
+        for (vi, name) in ["absent", "zero-length", "garbage", "only-bak-and-tmp"].iter().enumerate() {
+            let mut wv = w.clone();
+            let t = wv.clock_ns;
+            match vi {
+                0 => {
+                    wv.host(HOST).remove_file(&afile);
+                }
+                1 => wv.host(HOST).put_file(&afile, b"", t),
+                2 => wv.host(HOST).put_file(&afile, b"\x00\x01not json at all", t),
+                _ => {
+                    wv.host(HOST).remove_file(&afile);
+                    wv.host(HOST).put_file(&format!("{afile}.bak"), &orig, t);
+                    wv.host(HOST).put_file(&format!("{afile}.tmp"), &orig, t);
+                }
+            }
+            rep.fault("archive_fault_with_mirrored_pair_archive_present", 1);
+            let out = run_bisync(wv, run_cfg(sc.cfg_seed ^ 0x32 ^ (vi as u64)), ROOT_A, ROOT_B, &[], h.hostname_env);
+            rep.execs += 1;
+            let k = classify(&out);
+            let ctx = |m: String| format!("archive fault '{name}' while an archive of the mirrored pair (bisync B A) exists: {m}");
+            if k == RunKind::Crashed {
+                rep.fail("c07.no_crash", "bisync-panicked-on-damaged-archive", ctx(format!("{:?}", out.procs[0].exit)));
+                return;
+            }
+            if !out.procs[0].err_str().contains("SAFE no-base mode") {
+                rep.fail("c07.safe_mode", "mirrored-pair-archive-trusted", ctx("no `SAFE no-base mode` banner".into()));
+                return;
+            }
+            let unl = unlinks_in_roots(&out.trace, &[ROOT_A, ROOT_B]);
+            if !unl.is_empty() {
+                rep.fail("c07.no_unlink", "delete-without-trusted-archive", ctx(format!("unlinked {:?}", &unl[..unl.len().min(3)])));
+                return;
+            }
+            let a1 = strip_staging(&tree_bytes(&out.world, HOST, ROOT_A));
+            let b1 = strip_staging(&tree_bytes(&out.world, HOST, ROOT_B));
+            if let Some((_c, d)) = lost_version(&a0, &b0, &a1, &b1, &Tree::new(), k) {
+                rep.fail("c07.versions_kept", "version-lost-with-damaged-archive", ctx(d));
+                return;
+            }
+        }
+    }
+}
+
 impl Check for C07 {
     type Sc = Sc;
     fn id(&self) -> &'static str {
@@ -163,7 +244,7 @@ impl Check for C07 {
         "fault_enumeration"
     }
     fn rule(&self) -> String {
-        "one run = one state reached by a seeded history (valid archive with real entries, then deletes/edits on either side) x the archive-fault catalogue: absent, zero length, truncation points (all in thorough / when <=160 bytes, else 53 seeded), garbage of 4 lengths, structure-breaking byte, 5 wrong JSON shapes, format_version in {0,2,u32::MAX}, own entries under another pair hash, the real archive of another pair, only .bak/.tmp. Each variant is one execution of the real bisync on a clone of the world. Non-trivial = the state has a path that a trusted base would delete; distinct = hash of (trace shape of the faulted run, variant kind)".into()
+        "one run = one state reached by a seeded history (valid archive with real entries, then deletes/edits on either side) x the archive-fault catalogue: absent, zero length, truncation points (all in thorough / when <=160 bytes, else 53 seeded), garbage of 4 lengths, structure-breaking byte, 5 wrong JSON shapes, format_version in {0,2,u32::MAX}, own entries under another pair hash, the real archive of another pair, only .bak/.tmp; in a fifth of the runs also: the first root named through a symlink that is re-pointed to another directory, and (another fifth) absent/empty/garbage/.bak-only archives while a stale archive of the MIRRORED pair (an earlier `bisync B A`) exists and a file it records was deleted on both sides and re-created on one. Each variant is one execution of the real bisync on a clone of the world. Non-trivial = the state has a path that a trusted base would delete; distinct = hash of (trace shape of the faulted run, variant kind)".into()
     }
     fn assumptions(&self) -> Vec<String> {
         vec!["as C02; an archive fault is a change of the bytes stored at $HOME/.copia/archive/<pair>.json (and siblings) before the run".into()]
@@ -213,6 +294,12 @@ impl Check for C07 {
             // between the runs (a `current -> release-N` rotation). The archive recorded for the
             // old pair must not be trusted for the new one.
             self.symlink_variant(sc, &mut rep);
+            if rep.violation.is_some() {
+                return rep;
+            }
+        }
+        if sc.cfg_seed % 5 == 1 && sc.only.is_none() {
+            self.mirrored_variant(sc, &mut rep);
             if rep.violation.is_some() {
                 return rep;
             }
